@@ -35,6 +35,8 @@ func ghostType(name string) types.Type {
 		return types.Typ[types.Uint32]
 	case "str":
 		return types.Typ[types.String]
+	case "bytes":
+		return types.NewSlice(types.Typ[types.Uint8])
 	}
 	return specType(name)
 }
@@ -69,6 +71,7 @@ func verifyFunction(prog *Program, fn *ssa.Function, ctr *Contract, opts VerifyO
 	fr := x.newFrame(fn, nil)
 	fr.top = true
 	fr.ctr = ctr
+	x.topFrame = fr
 	for _, p := range fn.Params {
 		v := x.freshVal(st, "p."+p.Name(), p.Type())
 		fr.vals[p] = v
@@ -143,6 +146,7 @@ func (x *Exec) checkEnsures(fr *Frame, st *State, rs []Val, ret *ssa.Return) {
 		o := x.oblige(st, "ensures", name, c.Tags, ret.Pos(), g)
 		if o != nil {
 			o.Note = c.Text
+			o.clause = c
 		}
 	}
 	x.checkFrame(fr, st, ret)
